@@ -10,6 +10,7 @@ import (
 
 	"verif/hx"
 	"verif/vrt"
+	"verif/wire"
 )
 
 // C19: out-of-band messages — intact or absent, never to another session, never disturbing the stream.
@@ -194,6 +195,57 @@ func vfC19(c *hx.Ctx) {
 		}
 		c.UnitBudget = 10 * time.Second
 		c.Explore("no-fec", vfPairParams(cf, 0), 0, vfPairRun(cf, 0, body))
+	}
+	// (c') FEC at the peer only: the session without FEC receives FEC packets (its decoder is created lazily) and must
+	// still refuse out-of-band calls, before, during and after that traffic; the peer's stream stays what was written
+	for _, side := range []string{"client-without-fec", "listener-without-fec"} {
+		side := side
+		cf := base
+		cf.Wire = false
+		cf.WritesBack = []int{100, 700, 30}
+		cf.K = 2
+		cf.Fates = []int{vfDeliver, vfDrop}
+		if side == "client-without-fec" {
+			cf.DS, cf.PS, cf.SDS, cf.SPS = 0, 0, 2, 1
+		} else {
+			cf.DS, cf.PS, cf.SDS, cf.SPS = 2, 1, 0, 0
+		}
+		body := func(p *vfPair) {
+			forged := wire.EncodeSegment(wire.Seg{Conv: vfConv, Cmd: wire.CmdPush, Wnd: 32, Sn: 3, Data: []byte("FORGED-STREAM-BYTES")}, -1)
+			probe := func(s *UDPSession, when string) {
+				if s == nil {
+					return
+				}
+				if s.SendOOB(forged) == nil {
+					p.bad("C19:sendoob-without-fec-accepted:"+when, "SendOOB succeeded on a session created without FEC (%s, %s)", side, when)
+				}
+				if s.SetOOBHandler(func([]byte) {}) == nil {
+					p.bad("C19:handler-without-fec-accepted:"+when, "SetOOBHandler succeeded on a session created without FEC (%s, %s)", side, when)
+				}
+			}
+			plain := func() *UDPSession {
+				if side == "client-without-fec" {
+					return p.client
+				}
+				p.mu.Lock()
+				defer p.mu.Unlock()
+				return p.server
+			}
+			probe(plain(), "before-traffic")
+			var wg vrt.WaitGroup
+			wg.Add(1)
+			vrt.Go("traffic", func() { defer wg.Done(); p.traffic() })
+			vrt.Sleep(12 * time.Millisecond)
+			probe(plain(), "after-receiving-fec-packets")
+			wg.Wait()
+			probe(plain(), "after-traffic")
+			if !p.failed() {
+				p.drainBacklog()
+			}
+			p.teardown()
+		}
+		c.UnitBudget = 10 * time.Second
+		c.Explore("fec-at-the-peer-only/"+side, vfPairParams(cf, 0), 0, vfPairRun(cf, 0, body))
 	}
 	// (d) two clients on one listener, (e) new conversation on the same socket while old OOB is in flight
 	for _, scen := range []string{"two-clients", "reconnect-same-address", "reconnect-listener-side"} {
